@@ -16,7 +16,7 @@ type Explorer struct {
 	NShards  int
 	Deadline time.Time // zero = none
 	MaxExecs int       // zero = none
-	Run      func(prefix []int, fps []string) *Exec
+	Run      func(prefix []int, hs []uint64) *Exec
 	OnExec   func(x *Exec) bool // returns false to stop (e.g. after a violation)
 
 	Stats Stats
@@ -90,7 +90,26 @@ func (e *Explorer) over() bool {
 	return false
 }
 
-// Explore runs the search. It returns false if OnExec asked to stop.
+// lvlNode is an executed schedule kept so that its children (one more deviation) can be run.
+type lvlNode struct {
+	choices []uint8
+	ns      []uint8
+	hs      []uint64
+	from    int // first decision point at which a child may deviate
+}
+
+func nodeOf(x *Exec, from int) *lvlNode {
+	nd := &lvlNode{from: from, choices: make([]uint8, len(x.Points)), ns: make([]uint8, len(x.Points)), hs: make([]uint64, len(x.Points))}
+	for i, p := range x.Points {
+		nd.choices[i], nd.ns[i], nd.hs[i] = uint8(p.Choice), uint8(p.N), p.H
+	}
+	return nd
+}
+
+// Explore runs the search level by level: all schedules with one deviation, then all with
+// two, ... up to Bound. A run that hits its budget has therefore completed every level
+// below the one it stopped in, and says so (Stats.BoundCompleted). It returns false if OnExec
+// asked to stop.
 func (e *Explorer) Explore() bool {
 	if e.NShards == 0 {
 		e.NShards = 1
@@ -102,57 +121,40 @@ func (e *Explorer) Explore() bool {
 			return false
 		}
 	}
-	if e.Bound == 0 {
-		return true
-	}
+	cur := []*lvlNode{nodeOf(root, 0)}
 	k := 0
-	cont := true
-	for i := 0; i < len(root.Points) && cont; i++ {
-		for alt := 1; alt < root.Points[i].N && cont; alt++ {
-			mine := k%e.NShards == e.Shard
-			k++
-			if !mine {
-				continue
-			}
-			if e.over() {
-				return true
-			}
-			cont = e.subtree(root, i, alt, 1)
-		}
-	}
-	if cont && e.Stats.Capped == "" {
-		e.Stats.BoundCompleted = e.Bound
-	}
-	return cont
-}
-
-// subtree explores the execution obtained from parent by taking alt at point i, and all of
-// its descendants within the bound.
-func (e *Explorer) subtree(parent *Exec, i, alt, cost int) bool {
-	prefix := make([]int, i+1)
-	fps := make([]string, i+1)
-	for j := 0; j < i; j++ {
-		prefix[j] = parent.Points[j].Choice
-		fps[j] = parent.Points[j].FP
-	}
-	prefix[i] = alt
-	fps[i] = parent.Points[i].FP
-	x := e.Run(prefix, fps)
-	if !e.record(x) {
-		return false
-	}
-	if cost >= e.Bound || x.Diverged != "" {
-		return true
-	}
-	for j := i + 1; j < len(x.Points); j++ {
-		for a := 1; a < x.Points[j].N; a++ {
-			if e.over() {
-				return true
-			}
-			if !e.subtree(x, j, a, cost+1) {
-				return false
+	for level := 1; level <= e.Bound; level++ {
+		var next []*lvlNode
+		for _, nd := range cur {
+			for i := nd.from; i < len(nd.choices); i++ {
+				for alt := 1; alt < int(nd.ns[i]); alt++ {
+					if level == 1 {
+						mine := k%e.NShards == e.Shard
+						k++
+						if !mine {
+							continue
+						}
+					}
+					if e.over() {
+						return true
+					}
+					prefix := make([]int, i+1)
+					for j := 0; j < i; j++ {
+						prefix[j] = int(nd.choices[j])
+					}
+					prefix[i] = alt
+					x := e.Run(prefix, nd.hs[:i+1])
+					if !e.record(x) {
+						return false
+					}
+					if level < e.Bound && x.Diverged == "" && len(x.Points) < 250 {
+						next = append(next, nodeOf(x, i+1))
+					}
+				}
 			}
 		}
+		e.Stats.BoundCompleted = level
+		cur = next
 	}
 	return true
 }
